@@ -63,10 +63,10 @@ func c14Run(c *core.Ctx) {
 		}
 	}
 	maxN := 3
-	units := []int64{ms, sec}
+	units := []int64{ms, sec, 300000}
 	if c.Tier == core.Thorough {
 		maxN = 4
-		units = []int64{ms, sec, hour + ms}
+		units = []int64{ms, sec, hour + ms, 300000}
 	}
 	a := cueAlphabet(5, []string{"x|1\n\n2", "y"}, false)
 	for _, unit := range units {
